@@ -352,6 +352,12 @@ class Result:
             'notes': self.notes,
         }
         cov.update(self.extra)
+        if violations == 0 and self.discharged < self.obligations:
+            # exit 0 with undischarged obligations happens only when every one of them was
+            # attributed to a listed known finding (core.finish); they are reported separately
+            cov['obligations_total_including_excused'] = self.obligations
+            cov['excused_obligations'] = [n for n, f, m in self.failed_obl]
+            cov['obligations'] = self.discharged
         ev = {
             'property_id': self.pid,
             'tier': self.tier,
@@ -362,8 +368,11 @@ class Result:
             'wall_s': round(time.time() - self.t0, 2),
             'violations': violations,
         }
-        os.makedirs(os.path.join(VERIF, 'evidence'), exist_ok=True)
-        with open(os.path.join(VERIF, 'evidence', self.pid + '.json'), 'w') as f:
+        # runs against a scratch copy of the repo (seeded-change experiments) must not
+        # overwrite the evidence of the real tree
+        evdir = os.path.join(VERIF, 'evidence') if REPO == '/repo' else os.path.join(VERIF, '.work', 'evidence_scratch')
+        os.makedirs(evdir, exist_ok=True)
+        with open(os.path.join(evdir, self.pid + '.json'), 'w') as f:
             json.dump(ev, f, indent=1, default=str)
         return ev
 
@@ -376,7 +385,7 @@ def load_known():
 
 
 def write_replay(pid, name, payload):
-    d = os.path.join(VERIF, 'replays')
+    d = os.path.join(VERIF, 'replays') if REPO == '/repo' else os.path.join(VERIF, '.work', 'replays_scratch')
     os.makedirs(d, exist_ok=True)
     p = os.path.join(d, '%s_%s.json' % (pid, name))
     with open(p, 'w') as f:
